@@ -175,6 +175,18 @@ def run(ctx):
             continue
         circmon.drain()
         numbered = c.n_modes - len(c._internal_modes)
+        if rng.random() < 0.04 and numbered > 0:
+            # a phase that is not a finite number is accepted by ps() and Parameter: if the circuit can be built with it,
+            # it can be asked to be drawn
+            v = float(rng.choice([float("nan"), float("inf"), float("-inf")]))
+            try:
+                r = rng.random()
+                c.ps(int(rng.integers(numbered)), v if r < 0.5 else lw.Parameter(v, label="phi" if r < 0.75 else None))
+                log.append(["ps", "non-finite phase", repr(v), "plain" if r < 0.5 else "Parameter"])
+                ctx.bucket("non_finite_phase_accepted")
+            except Exception as e:  # noqa: BLE001
+                ctx.count("non_finite_phase_rejected:" + type(e).__name__)
+            circmon.drain()
         n_opt = 3 if ctx.tier == "quick" else 8
         for _ in range(n_opt):
             dt = str(rng.choice(["svg", "svg", "mpl"]))
